@@ -307,3 +307,73 @@ def run(ctx):
     ctx.guard(r06_3)
     ctx.guard(r06_4)
     ctx.guard(r06_5)
+
+
+# ------------------------------------------------------------------------------------------------ R06.2 (orderings)
+def r06_2b(ctx):
+    """Dyadic descent on representative rationals: node [0, 8], requested grid points 1..7."""
+    rep, model = ctx.rep, ctx.model
+    rep.rule("R06.2b", "dyadic mode on representative orderings: for every requested point the exact splits are the "
+                       "successive dyadic midpoints of the nodes on the way to it, and nothing else")
+    sp = model.func(BI, "_Interval._split")
+    icls = model.cls(BI, "_Interval")
+    for q in (1, 2, 3, 4, 5, 6, 7):
+        top, _ = bk.make_top(model, halfway=True)
+        splits = []
+
+        class H(bk.BrownianHooks):
+            def on_call(self, interp, callee, args, kwargs, node, fi):
+                from ..interp import BoundMethod
+                if isinstance(callee, BoundMethod) and callee.fi.name == "_split_exact":
+                    recv = callee.self_obj
+                    m = args[0] if args else kwargs.get("midway")
+                    splits.append((recv.attrs["_start"], recv.attrs["_end"], m))
+                    recv.attrs["_midway"] = m
+                    recv.attrs["_left_child"] = Obj("L", cls=icls, attrs={"_top": top, "_start": recv.attrs["_start"],
+                                                                           "_end": m, "_midway": None})
+                    recv.attrs["_right_child"] = Obj("R", cls=icls, attrs={"_top": top, "_start": m,
+                                                                            "_end": recv.attrs["_end"], "_midway": None})
+                    return None
+                return bk.BrownianHooks.on_call(self, interp, callee, args, kwargs, node, fi)
+        it = Interp(model, H())
+        node = Obj("node", cls=icls, attrs={"_top": top, "_start": Fraction(0), "_end": Fraction(8), "_midway": None})
+        it.call_function(sp, [node, Fraction(q)], {})
+        want, lo, hi = [], Fraction(0), Fraction(8)
+        while True:
+            mid = (lo + hi) / 2
+            want.append((lo, hi, mid))
+            if q > mid:
+                lo = mid
+            elif q < mid:
+                hi = mid
+            else:
+                break
+        rep.check(splits == want, "R06.2b", astq.loc(sp), f"{sp.key}::R06.2b::q={q}",
+                  f"dyadic `_split` towards {q} on [0, 8] performs the exact splits {[(int(a), int(b), str(m)) for a, b, m in splits]}; "
+                  f"the dyadic tree requires {[(int(a), int(b), str(m)) for a, b, m in want]} (each node halved, "
+                  f"descending towards the requested point, stopping when it is reached)", "dyadic bisection")
+    # non-dyadic mode: one exact split at the requested point
+    top, _ = bk.make_top(model, halfway=False)
+    got = []
+
+    class H2(bk.BrownianHooks):
+        def on_call(self, interp, callee, args, kwargs, node, fi):
+            from ..interp import BoundMethod
+            if isinstance(callee, BoundMethod) and callee.fi.name == "_split_exact":
+                got.append(args[0] if args else kwargs.get("midway"))
+                return None
+            return bk.BrownianHooks.on_call(self, interp, callee, args, kwargs, node, fi)
+    it = Interp(model, H2())
+    node = Obj("node", cls=icls, attrs={"_top": top, "_start": Fraction(0), "_end": Fraction(8), "_midway": None})
+    it.call_function(sp, [node, Fraction(3)], {})
+    rep.check(got == [Fraction(3)], "R06.2b", astq.loc(sp), f"{sp.key}::R06.2b::non-dyadic",
+              f"without halfway_tree `_split(3)` performs exact splits at {got}, expected [3]", "one split at the point")
+    ctx.floor("R06.2b", 8)
+
+
+_run_c06 = run
+
+
+def run(ctx):
+    _run_c06(ctx)
+    ctx.guard(r06_2b)
